@@ -5,6 +5,12 @@ ROOT = os.path.dirname(os.path.dirname(os.path.abspath(__file__)))
 TRUST = ("TLC 1.8.0 + CommunityModules; the harness's independent raw-socket codec and recording handlers; bounds as in the "
          "spec/mc/*.cfg named in the evidence; default cargo features plus vhost-kern/vdpa/net/vsock (xen, postcopy excluded)")
 CLAIMS = {
+ "C16": ("model_checking", "2/C16",
+   "DaemonLifecycle.tla (daemon thread x 0..3 shutdown callers x peer state) is model-checked: after a completed shutdown request the "
+   "thread exits and wait() is Ok (safety + liveness under fairness), disconnect without shutdown is an error, the peer sees EOF. Every "
+   "complete schedule is driven through the instrumented hold points and a blocking handler of a real daemon; TLC replays the executed "
+   "commands as model actions and compares wait(), peer EOF, restart, repeated shutdown, thread count; serve() is cut at every byte offset.",
+   "TLA+ model checking incl. liveness (TLC) + schedule replay over hold points + TLC trace validation"),
  "C12": ("model_checking", "2/C12",
    "VringConc.tla (worker loop x daemon thread micro-steps x guest kicks over level-triggered epoll/eventfd) is model-checked for all "
    "interleavings of six scenarios: 'no lost kick' and 'worker survives' hold on the model, 'no dispatch after the reply' is refuted "
